@@ -299,8 +299,11 @@ void Mul::dict_add_term_new(const Ptr<RCP<const Number>> &coef,
                        and (not down_cast<const Number &>(*it->second)
                                     .is_exact()
                             or not down_cast<const Number &>(*t).is_exact())) {
-                imulnum(outArg(*coef), down_cast<const Number &>(*t).pow(
-                                           down_cast<const Number &>(*exp)));
+                // t**(sum of the exponents) is a number: fold it into the
+                // coefficient and drop the entry
+                RCP<const Number> p = rcp_static_cast<const Number>(it->second);
+                d.erase(it);
+                imulnum(outArg(*coef), down_cast<const Number &>(*t).pow(*p));
             }
         }
     }
